@@ -597,5 +597,263 @@ theorem decrements_le_call (j : Nat) (es : List TEvent) (t : Int) (s : Fw σ)
     congr 1
   omega
 
+/-- did the log touch the limit of machine `j` (assignment or decrement) -/
+def touched (log : List LogEntry) (j : Nat) : Bool :=
+  log.any fun e => match e with
+    | .limit m _ _ => m == j
+    | _ => false
+
+/-- the monitor's test for an action scheduled although the limit was 0 throughout the call -/
+def badAct (lim : Nat → Nat) (log : List LogEntry) (a : TAction) : Bool :=
+  match a with
+  | .cancel .. => false
+  | _ => lim a.machine == 0 && !touched log a.machine
+
+/-- **No limited action while the limit stayed 0**, per call, in the monitor's vocabulary -/
+theorem no_limited_action (es : List TEvent) (t : Int) (s : Fw σ) (hI : Inv04 s)
+    (l : List LogEntry) (hl : (triggerEvents ρ es t s).log = l ++ s.log)
+    (a : TAction) (ha : a ∈ (triggerEvents ρ es t s).actionsOut) :
+    badAct (limOf s.snap) l.reverse a = false := by
+  cases hb : badAct (limOf s.snap) l.reverse a with
+  | false => rfl
+  | true =>
+    exfalso
+    have hI' : Inv04 (triggerEvents ρ es t s) := hI.run (triggerEvents_run ρ es t s)
+    unfold Fw.actionsOut at ha
+    rw [List.mem_filterMap] at ha
+    obtain ⟨x, hx, hxa⟩ := ha
+    simp only [id] at hxa
+    subst hxa
+    obtain ⟨i, hi⟩ := List.getElem?_of_mem hx
+    have hmi : a.machine = i := (hI'.slots i a hi).1
+    subst hmi
+    have hnc : a.isCancel = false ∧ limOf s.snap a.machine = 0 ∧ touched l.reverse a.machine = false := by
+      cases a <;> simp_all [badAct, TAction.isCancel]
+    have hz : ∀ r, s.rt[a.machine]? = some r → r.stateLimit = 0 := by
+      intro r hr; rw [← (limOf_snap s a.machine r hr).1]; exact hnc.2.1
+    obtain ⟨l', hl', p⟩ := exhausted_call ρ (mi := a.machine) es t s hz
+    have : l' = l := List.append_cancel_right (hl'.symm.trans hl)
+    subst this
+    rcases p with ⟨x, hx⟩ | hp
+    · have : touched l'.reverse a.machine = true := by
+        unfold touched
+        rw [List.any_eq_true]
+        exact ⟨_, List.mem_reverse.2 hx, by simp⟩
+      rw [hnc.2.2] at this; cases this
+    · have := hp.slot a hi
+      rw [hnc.1] at this; cases this
+
+/-! ### one step of the monitor -/
+
+def ownOf (es : List TEvent) : Option Nat :=
+  match es with
+  | [.paddingSent m] => some m
+  | [.blockingBegin m] => some m
+  | [.timerBegin m] => some m
+  | _ => none
+
+/-- the monitor's single-completion check -/
+def missingOf (n : Nat) (st : Nat → Nat) (log : List LogEntry) (own : Option Nat) : Option String :=
+  match own with
+  | some m =>
+    if m < n && st m != STATE_END then
+      let pre := C07.beforeSignals log
+      let preDec := pre.takeWhile (notDec m)
+      let d := C07.decrements m pre
+      if d == 0 then
+        if !C07.changedState m (st m) pre then some s!"machine {m}: completion without state change consumed no unit of the limit"
+        else none
+      else if d != 1 then some s!"machine {m}: one completion consumed {d} units of the limit"
+      else if C07.changedState m (st m) preDec then some s!"machine {m}: limit decremented although the completion changed its state"
+      else none
+    else none
+  | none => none
+
+/-- the body of `C07.monitor.go` for one call, with the recursive call abstracted as `k` -/
+def stepOf (ms : List Machine) (n i : Nat) (prev : Snap) (c : CallRec) (k : Option String) : Option String :=
+  if c.res != .ok then none else
+  match C07.checkLog ms (limOf prev) (stOf prev) (fun _ => none) c.log with
+  | some msg => some s!"call {i}: {msg}"
+  | none =>
+    match (List.range n).find? (fun j => C07.decrements j c.log > C07.completions j c.events) with
+    | some j => some s!"call {i}: machine {j}: {C07.decrements j c.log} decrements for {C07.completions j c.events} own completions"
+    | none =>
+      match missingOf n (stOf prev) c.log (ownOf c.events) with
+      | some msg => some s!"call {i}: {msg}"
+      | none =>
+        match c.actions.find? (badAct (limOf prev) c.log) with
+        | some a => some s!"call {i}: action scheduled for machine {a.machine} although its state limit was 0 throughout the call"
+        | none => k
+
+theorem go_cons (t : FwTrace) (n i : Nat) (prev : Snap) (c : CallRec) (cs : List CallRec) :
+    C07.monitor.go t n i prev (c :: cs) = stepOf t.machines n i prev c (C07.monitor.go t n (i + 1) c.snap cs) := by
+  rw [C07.monitor.go]
+  rfl
+
+theorem go_nil (t : FwTrace) (n i : Nat) (prev : Snap) : C07.monitor.go t n i prev [] = none := by
+  rw [C07.monitor.go]
+
+theorem missingOf_none (n : Nat) (st : Nat → Nat) (log : List LogEntry) (own : Option Nat)
+    (h : ∀ m, own = some m → m < n → st m ≠ STATE_END → RuleC m (st m) (C07.beforeSignals log)) :
+    missingOf n st log own = none := by
+  unfold missingOf
+  cases own with
+  | none => rfl
+  | some m =>
+    simp only []
+    split
+    · next hc =>
+      simp only [Bool.and_eq_true, decide_eq_true_eq, bne_iff_ne, ne_eq] at hc
+      rcases h m rfl hc.1 hc.2 with ⟨h1, h2⟩ | ⟨h1, h2⟩
+      · simp [h1, h2]
+      · simp [h1, h2]
+    · rfl
+
+theorem stepOf_ok (ms : List Machine) (n i : Nat) (prev : Snap) (c : CallRec) (k : Option String)
+    (h1 : C07.checkLog ms (limOf prev) (stOf prev) (fun _ => none) c.log = none)
+    (h2 : ∀ j, C07.decrements j c.log ≤ C07.completions j c.events)
+    (h3 : ∀ m, ownOf c.events = some m → m < n → stOf prev m ≠ STATE_END →
+      RuleC m (stOf prev m) (C07.beforeSignals c.log))
+    (h4 : ∀ a ∈ c.actions, badAct (limOf prev) c.log a = false) :
+    stepOf ms n i prev c k = if c.res != .ok then none else k := by
+  unfold stepOf
+  split
+  · rfl
+  · rw [h1]
+    simp only []
+    have e2 : (List.range n).find? (fun j => decide (C07.decrements j c.log > C07.completions j c.events)) = none := by
+      rw [List.find?_eq_none]
+      intro j _
+      have := h2 j
+      simp only [decide_eq_true_eq]; omega
+    rw [e2]
+    simp only []
+    rw [missingOf_none n (stOf prev) c.log (ownOf c.events) h3]
+    simp only []
+    have e4 : c.actions.find? (badAct (limOf prev) c.log) = none := by
+      rw [List.find?_eq_none]
+      intro a ha
+      rw [h4 a ha]; simp
+    rw [e4]
+
+theorem stepOf_bad (ms : List Machine) (n i : Nat) (prev : Snap) (c : CallRec) (k : Option String)
+    (h : c.res ≠ .ok) : stepOf ms n i prev c k = none := by
+  unfold stepOf
+  have : (c.res != Res.ok) = true := by simpa using h
+  simp [this]
+
+theorem ownOf_some (es : List TEvent) (m : Nat) (h : ownOf es = some m) :
+    ∃ e, es = [e] ∧ (e = .paddingSent m ∨ e = .blockingBegin m ∨ e = .timerBegin m) := by
+  unfold ownOf at h
+  split at h
+  · cases h; exact ⟨_, rfl, Or.inl rfl⟩
+  · cases h; exact ⟨_, rfl, Or.inr (Or.inl rfl)⟩
+  · cases h; exact ⟨_, rfl, Or.inr (Or.inr rfl)⟩
+  · cases h
+
+/-! ### the model's own trace, as the driver records it -/
+
+/-- the outcome of an operation as the driver reports it -/
+def resOf : Option Fault → Res
+  | none => .ok
+  | some .durOverflow => .panic "dur"
+  | some .oob => .panic "oob"
+  | some .fuel => .panic "fuel"
+
+/-- the framework before a call as the driver sets it up: the ghost log is emptied, so that after
+    the call it holds exactly the entries of that call -/
+def resetLog (s : Fw σ) : Fw σ := { s with log := [] }
+
+/-- the record of one call of the model: events, outcome, returned actions, snapshot and the log of
+    the call (oldest first) -/
+def callRec (s : Fw σ) (c : Call) : CallRec :=
+  { t := c.2, events := c.1, res := resOf (triggerEvents ρ c.1 c.2 (resetLog s)).fault,
+    actions := (triggerEvents ρ c.1 c.2 (resetLog s)).actionsOut,
+    snap := (triggerEvents ρ c.1 c.2 (resetLog s)).snap,
+    log := (triggerEvents ρ c.1 c.2 (resetLog s)).log.reverse }
+
+def callRecs (s : Fw σ) : List Call → List CallRec
+  | [] => []
+  | c :: h => callRec ρ s c :: callRecs (triggerEvents ρ c.1 c.2 (resetLog s)) h
+
+/-- the trace of the model for a history of calls, in the shape the monitors consume -/
+def modelTrace (ms : List Machine) (fp fb : F64) (t0 : Int) (rng : σ) (h : List Call) : FwTrace :=
+  { machines := ms, fp := fp, fb := fb, t0 := t0, newRes := resOf (Fw.init ρ ms fp fb t0 rng).fault,
+    snap0 := (Fw.init ρ ms fp fb t0 rng).snap, log0 := (Fw.init ρ ms fp fb t0 rng).log.reverse,
+    calls := callRecs ρ (Fw.init ρ ms fp fb t0 rng) h }
+
+theorem resOf_ok (f : Option Fault) : resOf f = .ok ↔ f = none := by
+  cases f with
+  | none => simp [resOf]
+  | some x => cases x <;> simp [resOf]
+
+theorem machines_prim {a b : Fw σ} (hp : Prim a b) : b.machines = a.machines := by
+  cases hp with
+  | step mi st => exact st.frame.machines
+  | setG => rfl
+  | setAcct => simp
+  | callStart => rfl
+
+theorem machines_run {a b : Fw σ} (hr : Run a b) : b.machines = a.machines := by
+  induction hr with
+  | refl => rfl
+  | tail _ hp ih => rw [machines_prim hp, ih]
+
+theorem inv04_resetLog {s : Fw σ} (hI : Inv04 s) : Inv04 (resetLog s) := ⟨hI.actLen, hI.rtLen, hI.slots⟩
+
+/-- **One call of the model passes one step of `C07.monitor`**: the call's record either reports a
+    fault (then the monitor stops) or satisfies all four rules -/
+theorem step_model (ms : List Machine) (i : Nat) (s : Fw σ) (hm : s.machines = ms) (hI : Inv04 s) (c : Call)
+    (k : Option String) :
+    stepOf ms ms.length i s.snap (callRec ρ s c) k =
+      if (triggerEvents ρ c.1 c.2 (resetLog s)).fault = none then k else none := by
+  have hlog : (triggerEvents ρ c.1 c.2 (resetLog s)).log = (triggerEvents ρ c.1 c.2 (resetLog s)).log ++ (resetLog s).log := by
+    simp [resetLog]
+  by_cases hok : (triggerEvents ρ c.1 c.2 (resetLog s)).fault = none
+  · rw [if_pos hok]
+    have hres : (callRec ρ s c).res = .ok := (resOf_ok _).2 hok
+    rw [stepOf_ok]
+    · simp [hres]
+    · have := call_accepted ρ c.1 c.2 (resetLog s) hok _ hlog (fun _ => none)
+      rw [← hm]
+      exact this
+    · intro j
+      exact decrements_le_call ρ j c.1 c.2 (resetLog s) _ hlog
+    · intro m hown hlt hne
+      obtain ⟨e, hes, he⟩ := ownOf_some _ m hown
+      have hes' : c.1 = [e] := hes
+      have hlt' : m < s.rt.length := by rw [hI.rtLen, hm]; exact hlt
+      have hr : (resetLog s).rt[m]? = some s.rt[m] := List.getElem?_eq_getElem hlt'
+      have hst : stOf s.snap m = (s.rt[m]).currentState := (limOf_snap s m _ (List.getElem?_eq_getElem hlt')).2
+      rw [hst] at hne ⊢
+      have h1 := hok
+      have h2 := hlog
+      show RuleC m _ (C07.beforeSignals (triggerEvents ρ c.1 c.2 (resetLog s)).log.reverse)
+      rw [hes'] at h1 h2 ⊢
+      exact ruleC_call ρ m e he c.2 (resetLog s) _ hr hne h1 _ h2
+    · intro a ha
+      exact no_limited_action ρ c.1 c.2 (resetLog s) (inv04_resetLog hI) _ hlog a ha
+  · rw [if_neg hok]
+    exact stepOf_bad _ _ _ _ _ _ (fun h => hok ((resOf_ok _).1 h))
+
+theorem go_model (t : FwTrace) (h : List Call) : ∀ (i : Nat) (s : Fw σ), s.machines = t.machines → Inv04 s →
+    C07.monitor.go t t.machines.length i s.snap (callRecs ρ s h) = none := by
+  induction h with
+  | nil => intro i s _ _; exact go_nil _ _ _ _
+  | cons c h ih =>
+    intro i s hm hI
+    rw [callRecs, go_cons, step_model ρ t.machines i s hm hI c]
+    split
+    · have hrun := triggerEvents_run ρ c.1 c.2 (resetLog s)
+      exact ih (i + 1) _ ((machines_run hrun).trans hm) ((inv04_resetLog hI).run hrun)
+    · rfl
+
+/-- **`C07.monitor` accepts the model's own trace of every history.** -/
+theorem monitor_model (ms : List Machine) (fp fb : F64) (t0 : Int) (rng : σ) (h : List Call) :
+    C07.monitor (modelTrace ρ ms fp fb t0 rng h) = none := by
+  unfold C07.monitor
+  exact go_model ρ (modelTrace ρ ms fp fb t0 rng h) h 1 (Fw.init ρ ms fp fb t0 rng)
+    (machines_run (init_run ρ ms fp fb t0 rng)) (Inv04.init ρ ms fp fb t0 rng)
+
 end LL
 end Mb
